@@ -1069,4 +1069,127 @@ theorem flat_inj : ∀ (e₁ e₂ : Entity), e₁.ok pathOK = true → e₂.ok p
   | .bound _, _, h₁, _, _ | .thunk _, _, h₁, _, _ | .wrapper _, _, h₁, _, _ | .stub _, _, h₁, _, _ | .routine .., _, h₁, _, _ => by
     cases h₁
 
+/-! ## the repaired naming of synthetic functions (`Cfg.fixed`, fixes/C14-1.diff) -/
+
+theorem synthName_legacy (cur name : Str) (rc : Option Recv) :
+    synthName Cfg.legacy cur name rc = funcNameStr cur name rc false := by
+  cases rc with
+  | none => rfl
+  | some r =>
+    cases hp : r.ptr <;> simp [synthName, wrapperName, funcNameStr, Cfg.legacy, Recv.toW, hp]
+
+/-- rendering of a receiver whose type belongs to another package than the one being compiled -/
+def qrecvStr (p r : Str) (ta : Tys) (ptr : Bool) : Str :=
+  '(' :: ((if ptr then ['*'] else []) ++ (p ++ '.' :: (r ++ (targsPart ta ++ ')' :: '.' :: []))))
+
+theorem wrapperName_fixed_eq (cur name p r : Str) (ta : Tys) (ptr : Bool) (hp : pathOK p = true) :
+    wrapperName Cfg.fixed cur name ⟨p, r, ta, [], ptr⟩ =
+      pathOf cur ++ '.' :: ((if p = pathOf cur then recvStr (some ⟨p, r, ta, ptr⟩) else qrecvStr p r ta ptr) ++ name) := by
+  obtain ⟨_, _, hpo, _⟩ := pathOK_unpack hp
+  unfold wrapperName
+  simp only [Cfg.fixed, hpo, Bool.true_and, scopeStr, List.append_nil, if_true]
+  by_cases hc : p = pathOf cur
+  · have hb : (p != pathOf cur) = false := by simp [hc]
+    simp only [hb, hc, if_true, Bool.false_eq_true, if_false]
+    cases ptr <;> simp [recvStr, namedName, targsPart] <;> split <;> simp
+  · have hb : (p != pathOf cur) = true := by simp [hc]
+    simp only [hb, hc, if_true, if_false]
+    cases ptr <;> simp [qrecvStr, namedName, targsPart] <;> split <;> simp
+
+theorem path_head {p : Str} (hp : pathOK p = true) : ∃ c p', p = c :: p' ∧ pathChar c = true := by
+  obtain ⟨h0, hc, _, _⟩ := pathOK_unpack hp
+  cases p with
+  | nil => exact absurd rfl h0
+  | cons c p' => exact ⟨c, p', rfl, hc c (by simp)⟩
+
+theorem targs_close_headNot_nb (ta : Tys) (X : Str) : HeadNot nb (targsPart ta ++ ')' :: X) := by
+  unfold targsPart; split
+  · exact headNot_cons (by decide)
+  · exact headNot_cons (by decide)
+
+theorem targs_close_headNot_ident (ta : Tys) (X : Str) : HeadNot identChar (targsPart ta ++ ')' :: X) := by
+  unfold targsPart; split
+  · exact headNot_cons (by decide)
+  · exact headNot_cons (by decide)
+
+/-- two qualified receivers -/
+theorem qrecv_inj {p₁ p₂ r₁ r₂ : Str} {ta₁ ta₂ : Tys} {ptr₁ ptr₂ : Bool} {N₁ N₂ : Str}
+    (hp₁ : pathOK p₁ = true) (hp₂ : pathOK p₂ = true) (hr₁ : identOK r₁ = true) (hr₂ : identOK r₂ = true)
+    (ht₁ : ta₁.ok pathOK = true) (ht₂ : ta₂.ok pathOK = true)
+    (h : qrecvStr p₁ r₁ ta₁ ptr₁ ++ N₁ = qrecvStr p₂ r₂ ta₂ ptr₂ ++ N₂) :
+    p₁ = p₂ ∧ r₁ = r₂ ∧ ta₁ = ta₂ ∧ ptr₁ = ptr₂ ∧ N₁ = N₂ := by
+  obtain ⟨c₁, q₁, e₁, hc₁⟩ := path_head hp₁
+  obtain ⟨c₂, q₂, e₂, hc₂⟩ := path_head hp₂
+  obtain ⟨_, hpc₁, _, hpd₁⟩ := pathOK_unpack hp₁
+  obtain ⟨_, hpc₂, _, hpd₂⟩ := pathOK_unpack hp₂
+  have hstar : ∀ c, pathChar c = true → c ≠ '*' := by
+    intro c hc e; subst e; exact absurd hc (by decide)
+  have same : ∀ (N₁ N₂ : Str), p₁ ++ '.' :: (r₁ ++ (targsPart ta₁ ++ ')' :: '.' :: [])) ++ N₁ =
+      p₂ ++ '.' :: (r₂ ++ (targsPart ta₂ ++ ')' :: '.' :: [])) ++ N₂ → p₁ = p₂ ∧ r₁ = r₂ ∧ ta₁ = ta₂ ∧ N₁ = N₂ := by
+    intro N₁ N₂ h
+    have a : ∀ (p r : Str) (ta : Tys) (N : Str), p ++ '.' :: (r ++ (targsPart ta ++ ')' :: '.' :: [])) ++ N
+        = p ++ '.' :: (r ++ (targsPart ta ++ ')' :: '.' :: N)) := by intros; simp
+    rw [a, a] at h
+    obtain ⟨hp, hR⟩ := path_split (fun c hc => path_not_brk (hpc₁ c hc)) (fun c hc => path_not_brk (hpc₂ c hc)) hpd₁ hpd₂
+      (noslash_run _ _ (fun c hc => Or.inl ((identOK_iff.mp hr₁).2 c hc)) (targs_close_headNot_nb _ _))
+      (noslash_run _ _ (fun c hc => Or.inl ((identOK_iff.mp hr₂).2 c hc)) (targs_close_headNot_nb _ _)) h
+    obtain ⟨hr, hT⟩ := seg_eq (identOK_iff.mp hr₁).2 (identOK_iff.mp hr₂).2 (targs_close_headNot_ident _ _) (targs_close_headNot_ident _ _) hR
+    obtain ⟨hta, hN⟩ := targsPart_split (by decide) ht₁ ht₂ hT
+    simp only [List.cons.injEq, true_and] at hN
+    exact ⟨hp, hr, hta, hN⟩
+  unfold qrecvStr at h
+  cases ptr₁ <;> cases ptr₂ <;>
+    simp only [if_true, if_false, Bool.false_eq_true, List.nil_append, List.cons_append, List.cons.injEq, true_and] at h
+  · obtain ⟨a, b, c, d⟩ := same N₁ N₂ h
+    exact ⟨a, b, c, rfl, d⟩
+  · rw [e₁] at h
+    simp only [List.cons_append, List.cons.injEq] at h
+    exact absurd h.1 (hstar c₁ hc₁)
+  · rw [e₂] at h
+    simp only [List.cons_append, List.cons.injEq] at h
+    exact absurd h.1.symm (hstar c₂ hc₂)
+  · obtain ⟨a, b, c, d⟩ := same N₁ N₂ h
+    exact ⟨a, b, c, rfl, d⟩
+
+/-- a receiver of the compiled package is never rendered like a qualified one -/
+theorem recv_ne_qrecv {pl rl : Str} {tal : Tys} {ptrl : Bool} {p r : Str} {ta : Tys} {ptr : Bool} {N₁ N₂ : Str}
+    (hp : pathOK p = true) (hrl : identOK rl = true) (hr : identOK r = true)
+    (h : recvStr (some ⟨pl, rl, tal, ptrl⟩) ++ N₁ = qrecvStr p r ta ptr ++ N₂) : False := by
+  obtain ⟨c, q, e, hc⟩ := path_head hp
+  obtain ⟨d, rl', el, hd⟩ := ident_head hrl
+  obtain ⟨_, hpc, _, _⟩ := pathOK_unpack hp
+  unfold qrecvStr at h
+  simp only [recvStr] at h
+  cases ptrl with
+  | false =>
+    -- starts with an identifier character, the other side with '('
+    simp only [Bool.false_eq_true, if_false, el, List.cons_append, List.cons.injEq] at h
+    have := h.1; subst this; exact absurd hd (by decide)
+  | true =>
+    cases ptr with
+    | false =>
+      simp only [if_true, Bool.false_eq_true, if_false, List.nil_append, List.cons_append, List.cons.injEq, true_and, e] at h
+      have := h.1; subst this; exact absurd hc (by decide)
+    | true =>
+      simp only [if_true, List.cons_append, List.cons.injEq, true_and, List.nil_append, List.append_assoc] at h
+      -- "(*" then: identifier up to '[' or ')'  versus  path "." identifier
+      have h1 := congrArg (List.takeWhile nb) h
+      have l : (rl ++ (targsPart tal ++ ')' :: '.' :: N₁)).takeWhile nb = rl := by
+        rw [takeWhile_append_all _ _ (fun x hx => by simp [nb, ident_not_brk ((identOK_iff.mp hrl).2 x hx)]),
+          takeWhile_headNot (targs_close_headNot_nb _ _)]; simp
+      have rr : (p ++ '.' :: (r ++ (targsPart ta ++ ')' :: '.' :: N₂))).takeWhile nb = p ++ '.' :: r := by
+        have a : p ++ '.' :: (r ++ (targsPart ta ++ ')' :: '.' :: N₂)) = (p ++ '.' :: r) ++ (targsPart ta ++ ')' :: '.' :: N₂) := by simp
+        rw [a, takeWhile_append_all _ _ (fun x hx => by
+          simp only [List.mem_append, List.mem_cons] at hx
+          rcases hx with hx | hx | hx
+          · simp [nb, path_not_brk (hpc x hx)]
+          · subst hx; decide
+          · simp [nb, ident_not_brk ((identOK_iff.mp hr).2 x hx)]), takeWhile_headNot (targs_close_headNot_nb _ _)]
+        simp
+      have h1' : (rl ++ (targsPart tal ++ ')' :: '.' :: N₁)).takeWhile nb = (p ++ '.' :: (r ++ (targsPart ta ++ ')' :: '.' :: N₂))).takeWhile nb := by
+        simpa using h1
+      rw [l, rr] at h1'
+      have : '.' ∈ rl := by rw [h1']; simp
+      exact absurd ((identOK_iff.mp hrl).2 '.' this) (by decide)
+
 end LlgoVerif.LinkName
